@@ -10,6 +10,9 @@
 import AuProofs.Lemmas.Factoring
 import AuProofs.Lemmas.Pratt
 import AuProofs.Lemmas.NatMag
+import AuProofs.Lemmas.Rho
+import AuProofs.Lemmas.NatMagSorted
+import AuProofs.Lemmas.SmallPrimesAll
 import Generated.FirstPrimes
 namespace Au
 open U64
@@ -169,6 +172,82 @@ theorem C12_findPrimeFactor_prime_of_BPSW (fu : Fuel) (hB : BPSWSound fu) (n : N
   rcases h3 with h | h
   · exact h
   · exact hB _ (Nat.lt_of_le_of_lt (Nat.le_of_dvd (by omega) h1) hn64) h
+
+/-! ### Pollard's rho, trial division, and what is unconditional -/
+
+/-- The gcd invariant of Pollard's rho: for EVERY `n > 1`, whenever `find_pollard_rho_factor(n)` returns
+within the model's fuel, the value `d` it returns divides `n` and `1 < d ≤ n`; `d < n` is the success
+case, `d = n` the documented "failure case".  (Termination within fuel is the only hypothesis, on that
+`n` only.) -/
+theorem C12_pollardRho_returns_divisor (fu : Fuel) (n : Nat) (hn : 1 < n)
+    (hs : (findPollardRhoFactor fu n).stuck = false) :
+    (findPollardRhoFactor fu n).val ∣ n ∧ 1 < (findPollardRhoFactor fu n).val ∧ (findPollardRhoFactor fu n).val ≤ n :=
+  findPollardRhoFactor_spec fu n hn hs
+
+example : findPollardRhoFactor {} (547 * 557) = W.ok 557 ∨ findPollardRhoFactor {} (547 * 557) = W.ok 547 := by decide +kernel
+
+/-- Whatever the trial-division phase returns is the SMALLEST prime factor of `n` (a genuine prime:
+no Baillie–PSW hypothesis, the table entries are proved prime and gapless). -/
+theorem C12_trialDivision_smallest_prime_factor (n : Nat) (hn : 1 < n) (r : Nat)
+    (h : (trialDivision n Generated.firstPrimes).val = some r) : r = Nat.minFac n ∧ Nat.Prime r := by
+  have h1 := trialDivision_minFac n hn _ 0 C12_firstPrimes_gapless (fun _ _ _ => Nat.zero_le _) r h
+  exact ⟨h1, h1 ▸ Nat.minFac_prime (by omega)⟩
+
+/-- Below `541² = 292681` `find_prime_factor` is unconditional: for any fuel it returns exactly the
+smallest prime factor, with no wrap, no UB, no fuel exhaustion. -/
+theorem C12_findPrimeFactor_exact_below_292681 (fu : Fuel) (n : Nat) (hn : 1 < n) (hlt : n < 292681) :
+    findPrimeFactor fu Generated.firstPrimes n = W.ok (Nat.minFac n) := by
+  apply findPrimeFactor_small fu _ n hn C12_firstPrimes_gapless
+  · intro p hp
+    exact ((C12_firstPrimes_are_the_first_100_primes).2.2.1 p hp).pos
+  · exact ⟨541, by decide, by omega⟩
+
+example : findPrimeFactor {} Generated.firstPrimes 282943 = W.ok 523 ∧ findPrimeFactor {} Generated.firstPrimes 292667 = W.ok 292667 := by decide +kernel   -- 523 · 541, and a prime just below 541²
+
+/-- `is_prime n ↔ Nat.Prime n` UNCONDITIONALLY for every `n < 2^16` (model with the default fuel), flags
+clean: kernel evaluation (`decide +kernel`, sixteen chunks in AuProofs/Lemmas/SmallPrimesCert*.lean) of the
+Baillie–PSW model on every prime and every base-2 strong probable prime below the bound, and of the proved
+Miller–Rabin characterisation on all other odd numbers.  `BPSWSound` is needed only above this bound. -/
+theorem C12_isPrime_iff_prime_below_65536 (n : Nat) (h : n < 65536) :
+    (isPrime {} n = W.ok true ↔ Nat.Prime n) ∧ (isPrime {} n = W.ok false ↔ ¬ Nat.Prime n) := by
+  rw [isPrime_exact_below_65536 n h, ← isPrimeSqrt_iff]
+  cases isPrimeSqrt n <;> simp
+
+example : isPrime {} 65521 = W.ok true ∧ isPrime {} 2047 = W.ok false ∧ isPrime {} 5459 = W.ok false := by decide +kernel
+
+/-- `PrimeFactorization<N>`: for every `N < 2^64`, whenever the model produces a magnitude, its factors
+multiply back to `N`, the pack is strictly sorted by base, and every base divides `N` and passed
+`Prime<base>`'s `static_assert(is_prime(base))`.  No termination hypothesis: it is about every returned
+result. -/
+theorem C12_primeFactorization_product (fu : Fuel) (table : List Nat) (N : Nat) (hN : N < 2 ^ 64) (m : NatMag)
+    (h : (magOfNat fu table N).val = .mag m) :
+    NatMag.value m = N ∧ NatMag.Sorted m ∧ ∀ be ∈ m, (isPrime fu be.1).val = true ∧ be.1 ∣ N := by
+  obtain ⟨h1, h2⟩ := primeFactorization_value fu table _ N m (M_eq ▸ hN) h
+  exact ⟨h1, primeFactorization_sorted fu table _ N m h, h2⟩
+
+/-- Below `2^16` the whole factorisation is unconditional: every base of `mag<N>()` is a genuine prime,
+the pack is sorted and multiplies back to `N` — i.e. it is THE canonical prime factorisation. -/
+theorem C12_mag_canonical_below_65536 (table : List Nat) (N : Nat) (h0 : 0 < N) (hN : N < 65536) (m : NatMag)
+    (h : (magOfNat {} table N).val = .mag m) :
+    NatMag.value m = N ∧ NatMag.Sorted m ∧ ∀ be ∈ m, Nat.Prime be.1 := by
+  obtain ⟨h1, h2, h3⟩ := C12_primeFactorization_product {} table N (by omega) m h
+  refine ⟨h1, h2, fun be hbe => ?_⟩
+  obtain ⟨hp, hd⟩ := h3 be hbe
+  have hle : be.1 ≤ N := Nat.le_of_dvd h0 hd
+  have hex := isPrime_exact_below_65536 be.1 (by omega)
+  rw [hex] at hp
+  exact (isPrimeSqrt_iff _).1 hp
+
+example : (magOfNat {} Generated.firstPrimes 65520).val = .mag [(2, 4), (3, 2), (5, 1), (7, 1), (13, 1)] := by decide +kernel
+
+/-- Under `BPSWSound` the same holds for every 64-bit `N` for which the model returns a magnitude. -/
+theorem C12_mag_canonical_of_BPSW (fu : Fuel) (hB : BPSWSound fu) (table : List Nat) (N : Nat) (h0 : 0 < N) (hN : N < 2 ^ 64)
+    (m : NatMag) (h : (magOfNat fu table N).val = .mag m) :
+    NatMag.value m = N ∧ NatMag.Sorted m ∧ ∀ be ∈ m, Nat.Prime be.1 := by
+  obtain ⟨h1, h2, h3⟩ := C12_primeFactorization_product fu table N hN m h
+  refine ⟨h1, h2, fun be hbe => ?_⟩
+  obtain ⟨hp, hd⟩ := h3 be hbe
+  exact hB _ (Nat.lt_of_le_of_lt (Nat.le_of_dvd h0 hd) hN) hp
 
 /-! ### mag<a>() * mag<b>() -/
 
